@@ -146,24 +146,29 @@ pub struct C5Sys<F: Fam> {
     finished: Vec<u32>,
     sends: u32,
     listeners: usize,
+    /// 0: no reservation API used; 1: ring reservations (movable atomic: sent oldest first, cancelled newest first, no plain send meanwhile); 2: pool reservations
+    reserve_mode: u8,
+    /// outstanding reservations in reservation order: slot, id of the payload built in it
+    reserved: Vec<(*mut Tr, u32)>,
 }
 
 impl<F: Fam> C5Sys<F> {
-    pub fn new(listeners: usize) -> Self {
+    pub fn new(listeners: usize, reserve_mode: u8) -> Self {
         let chan = F::mk();
         let n = if F::MULTI { listeners } else { 1 };
         let streams = (0..n).map(|_| Some(F::open(&chan))).collect();
-        C5Sys { held: Vec::new(), streams, chan, table: Arc::new(Mutex::new(Table::default())), fifo: vec![VecDeque::new(); n], finished: Vec::new(), sends: 0, listeners: n }
+        C5Sys { held: Vec::new(), streams, chan, table: Arc::new(Mutex::new(Table::default())), fifo: vec![VecDeque::new(); n], finished: Vec::new(), sends: 0, listeners: n, reserve_mode, reserved: Vec::new() }
     }
     fn next_id(&self) -> u32 { 1 + self.sends % PERIOD }
     /// ids somebody still has a claim on: buffered for a listener or held by the consumer
     fn live(&self) -> Vec<u32> {
         let mut v: Vec<u32> = self.fifo.iter().flat_map(|q| q.iter().copied()).collect();
         v.extend(self.held.iter().map(|h| h.1));
+        v.extend(self.reserved.iter().map(|r| r.1));
         v.sort(); v.dedup(); v
     }
     fn occupancy(&self) -> usize {
-        if F::POOLED { self.live().len() } else if F::MULTI { self.fifo.iter().map(|q| q.len()).max().unwrap_or(0) } else { self.fifo[0].len() }
+        if F::POOLED { self.live().len() } else if self.reserve_mode == 1 { self.fifo[0].len() + self.reserved.len() } else if F::MULTI { self.fifo.iter().map(|q| q.len()).max().unwrap_or(0) } else { self.fifo[0].len() }
     }
     fn check(&self, op: &str) -> Result<(), Bad> {
         let t = self.table.lock().unwrap();
@@ -175,6 +180,9 @@ impl<F: Fam> C5Sys<F> {
         drop(t);
         for (h, id) in &self.held {
             match h.read() { Ok(x) if x == *id => {}, Ok(x) => return Err(("overwritten-while-held".into(), format!("after {op}: a handle to payload {id} now reads payload {x}"))), Err(e) => return Err(("destroyed-while-held".into(), format!("after {op}: handle to payload {id}: {e}"))) }
+        }
+        for (p, id) in &self.reserved {
+            match unsafe { (**p).read() } { Ok(x) if x == *id => {}, other => return Err(("reserved-slot-changed".into(), format!("after {op}: the reserved slot holding payload {id} now reads {:?}", other))) }
         }
         // distinct payloads held at the same time live in distinct storage
         if F::POOLED || F::MULTI {
@@ -199,6 +207,7 @@ impl<F: Fam> C5Sys<F> {
 impl<F: Fam> Sys for C5Sys<F> {
     fn enabled(&self) -> Vec<String> {
         let mut v = vec!["send".to_string(), "send_with".to_string()];
+        if self.reserve_mode == 1 && !self.reserved.is_empty() { v.clear() }
         // the Arc Multi channels wait (documented) when a listener's queue is full: stay below
         if F::MULTI && !F::POOLED && self.fifo.iter().any(|q| q.len() + 1 >= F::B) { v.clear() }
         // (payloads moved out / Arc handles do not take channel capacity: bound what the consumer keeps)
@@ -207,6 +216,11 @@ impl<F: Fam> Sys for C5Sys<F> {
         for k in 0..self.held.len() { if self.held[k].0.try_clone().is_some() && self.held.len() < 4 { v.push(format!("clone #{k}")) } }
         if !F::MULTI && F::POOLED { for k in 0..self.held.len() { if self.held[k].0.references().is_none() { v.push(format!("into_shared #{k}")) } } }
         if F::MULTI { for l in 0..self.listeners { if self.streams[l].is_some() { v.push(format!("drop listener #{l}")) } } }
+        if self.reserve_mode != 0 {
+            if self.reserved.len() < 2 { v.push("reserve".to_string()) }
+            for i in 0..self.reserved.len() { if self.reserve_mode == 2 || i == 0 { v.push(format!("send_reserved #{i}")) } }
+            for i in 0..self.reserved.len() { if self.reserve_mode == 2 || i + 1 == self.reserved.len() { v.push(format!("cancel #{i}")) } }
+        }
         v
     }
 
@@ -273,6 +287,42 @@ impl<F: Fam> Sys for C5Sys<F> {
             let h = match h.into_shared() { Ok(h) | Err(h) => h };
             self.held.insert(k, (h, id));
             obs = format!("shared {id}");
+        } else if op == "reserve" {
+            let id = self.next_id();
+            self.forget_id(id);
+            let full = self.occupancy() >= F::B;
+            match self.chan.reserve_slot() {
+                Some(slot) => {
+                    if full { return Err(("accepted-beyond-capacity".into(), format!("reserve_slot succeeded with {} of {} slots taken", self.occupancy(), F::B))) }
+                    if self.held.iter().any(|(h, _)| h.addr() == slot as *mut Tr as usize) { return Err(("slot-reused-while-held".into(), "reserve_slot handed out storage a consumer still holds a handle to".into())) }
+                    unsafe { std::ptr::write(slot, Tr::new(id, &self.table)) };
+                    self.sends += 1;
+                    self.reserved.push((slot as *mut Tr, id));
+                    obs = format!("reserved {id}");
+                }
+                None => { if !full { return Err(("rejected-with-room".into(), format!("reserve_slot answered None with {} of {} slots taken", self.occupancy(), F::B))) } obs = "reserve -> full".into() }
+            }
+        } else if let Some(i) = op.strip_prefix("send_reserved #") {
+            let i: usize = i.parse().unwrap();
+            let (p, id) = self.reserved[i];
+            if self.chan.try_send_reserved(unsafe { &mut *p }) {
+                self.reserved.remove(i);
+                let mut any = false;
+                for l in 0..self.listeners { if self.streams[l].is_some() { self.fifo[l].push_back(id); any = true } }
+                if !any { self.finished.push(id) }
+                obs = format!("sent reserved {id}");
+            } else {
+                // "not sent: the reservation is still yours" -- it stays outstanding (and must stay intact)
+                obs = format!("send reserved {id} -> refused");
+            }
+        } else if let Some(i) = op.strip_prefix("cancel #") {
+            let i: usize = i.parse().unwrap();
+            let (p, id) = self.reserved[i];
+            if self.chan.try_cancel_slot_reserve(unsafe { &mut *p }) {
+                self.reserved.remove(i);
+                // never delivered: destroyed at most once (the pool destroys it, the ring leaves it to be overwritten)
+                obs = format!("cancelled {id}");
+            } else { obs = format!("cancel {id} -> refused"); }
         } else if let Some(l) = op.strip_prefix("drop listener #") {
             let l: usize = l.parse().unwrap();
             self.streams[l] = None;
@@ -291,6 +341,8 @@ impl<F: Fam> Sys for C5Sys<F> {
         k.push(u64::MAX - 10);
         for (h, id) in &self.held { k.push(*id as u64); k.push(h.references().map(|r| r as u64 + 100).unwrap_or(0) + h.try_clone().is_some() as u64) }
         k.push(u64::MAX - 11);
+        k.extend(self.reserved.iter().map(|r| r.1 as u64));
+        k.push(u64::MAX - 12);
         // the objects' internal bookkeeping (ring positions relative to head, free lists, live-stream lists)
         reactive_mutiny::verif::VerifState::verif_state(&*self.chan, &mut k);
         k
@@ -299,6 +351,7 @@ impl<F: Fam> Sys for C5Sys<F> {
     /// teardown with whatever is buffered / held: handles first, then the streams, then the channel; every payload ever created must
     /// have been destroyed exactly once, nothing twice, and (sanitizer build) no freed memory touched
     fn epilogue(&mut self) -> Result<(), Bad> {
+        while let Some((p, _)) = self.reserved.pop() { let _ = self.chan.try_cancel_slot_reserve(unsafe { &mut *p }); }
         let outstanding = self.live();
         self.held.clear();
         for s in self.streams.iter_mut() { *s = None }
@@ -320,7 +373,7 @@ impl<F: Fam> Sys for C5Sys<F> {
     }
 }
 
-fn build<F: Fam>(listeners: usize) -> Box<dyn Sys> { Box::new(C5Sys::<F>::new(listeners)) }
+fn build<F: Fam>(listeners: usize, reserve_mode: u8) -> Box<dyn Sys> { Box::new(C5Sys::<F>::new(listeners, reserve_mode)) }
 
 pub fn configs(thorough: bool) -> Vec<Config> {
     let mut v = Vec::new();
@@ -328,7 +381,12 @@ pub fn configs(thorough: bool) -> Vec<Config> {
         let multi = kind.starts_with("multi");
         for listeners in if multi { vec![1usize, 2] } else { vec![1] } {
             let depth = match (thorough, multi && listeners == 2) { (false, false) => 9, (false, true) => 7, (true, false) => 13, (true, true) => 10 };
-            v.push(Config { name: format!("{kind}/listeners{listeners}"), max_depth: depth, build: Box::new(move || crate::dispatch_c05!(kind, build(listeners))) });
+            v.push(Config { name: format!("{kind}/listeners{listeners}"), max_depth: depth, build: Box::new(move || crate::dispatch_c05!(kind, build(listeners, 0))) });
+            // the reservation API, where the channel has it (listeners may all be gone when a reserved slot is sent)
+            let mode = match kind { "uni-MA" => 1u8, "uni-ZA" | "uni-ZF" | "multi-OA" | "multi-OF" => 2, _ => 0 };
+            if mode != 0 && listeners == 1 {
+                v.push(Config { name: format!("{kind}/listeners{listeners}/reserve"), max_depth: depth.min(if thorough { 9 } else { 7 }), build: Box::new(move || crate::dispatch_c05!(kind, build(listeners, mode))) });
+            }
         }
     }
     v
